@@ -460,7 +460,7 @@ class PeaksKind(Kind):
         nmax = 7 if tier == 'quick' else 9
         for sig in _signals([0, 2, 4], nmax):
             n = len(sig)
-            hs = heights3 if n <= 5 else ['-inf', 2, 3, 4, '+inf'] if n <= 7 else ['-inf', 2, 3, 4]   # 1 ~ 2 and 5 ~ +inf select the same samples
+            hs = heights3 if n <= 5 else ['-inf', 2, 3, 4, '+inf'] if n <= 6 else ['-inf', 2, 3, 4]   # 1 ~ 2 and 5 ~ +inf select the same samples
             yield self._grid_case(sig, 2, 'float64' if n % 2 else 'float32', hs, n + 2)
         # 4-value alphabet, sampled
         n4 = 1200 if tier == 'quick' else 60000
@@ -597,7 +597,7 @@ class WidthKind(Kind):
         for sig in _signals([0, 2, 4], nmax):
             n = len(sig)
             thrs = thr3 if n <= 5 else thr3[1:-1]
-            modes = _modes(rng, n, 2, boundary=4) if n <= 5 else _modes(rng, n, 2, boundary=2) if n <= 7 else _modes(rng, n, 1, boundary=2)
+            modes = _modes(rng, n, 2, boundary=4) if n <= 5 else _modes(rng, n, 2, boundary=2) if n <= 6 else _modes(rng, n, 2, boundary=1)
             yield {'data': sig, 'den': 2, 'dtype': 'float64' if n % 2 else 'int16x', 'grid': {'thrs': thrs, 'modes': modes},
                    'queries': [[dr, t, m] for dr in ('positive', 'negative') for t in thrs for m in modes]}
         nl = 300 if tier == 'quick' else 6000
